@@ -1,6 +1,6 @@
 (** C19 — the distance-to-vector transformations: the result is the squared norm of the orthogonal residual
-    (= the minimum squared distance to the line), finiteness, translation invariance, the role exchange of the
-    selection copies. *)
+    (= the minimum squared distance to the line), finiteness, translation invariance, the documented roles of the two vectors
+    of the selection copies (and the role exchange of their former code). *)
 From Coq Require Import Lqa Setoid Morphisms.
 From PV Require Import Lib.Common Model.C19_Pareto Proofs.C19_Pareto Proofs.C19_Order.
 Local Open Scope Q_scope.
@@ -167,7 +167,7 @@ Proof.
   split; [constructor; lra|]. split; [constructor; intro H; discriminate H|]. vm_compute. reflexivity.
 Qed.
 
-(** * the selection copies use their two vectors with exchanged roles *)
+(** * the selection copies use their two vectors in the documented roles (since commit 9b993ed9) *)
 Definition tres_eq (a b : tres) : Prop :=
   match a, b with
   | TRaised, TRaised => True
@@ -176,22 +176,28 @@ Definition tres_eq (a b : tres) : Prop :=
   | _, _ => False
   end.
 
-Lemma sel_is_core_swapped mat obj_wt vec_wt : Forall (fun x => 0 <= x) obj_wt -> Exists (fun x => 0 < x) obj_wt ->
-  trans_sel_prob mat obj_wt vec_wt = trans_core mat vec_wt obj_wt /\ trans_sel_fn mat obj_wt vec_wt = trans_core mat vec_wt obj_wt.
+(** full strength: for every sign vector and every non-negative non-zero preference vector both selection copies are
+    the core function (objectives signed by the first vector, distance to the line spanned by the second) *)
+Lemma sel_is_core mat sign pref : Forall (fun x => 0 <= x) pref -> Exists (fun x => 0 < x) pref ->
+  trans_sel_prob mat sign pref = trans_core mat sign pref /\ trans_sel_fn mat sign pref = trans_core mat sign pref.
 Proof. intros Hn Hp. rewrite trans_core_body by assumption. split; reflexivity. Qed.
 
-Lemma sel_roles_refuted : exists mat sign pref,
+(** the former code was the core function with the two vectors exchanged ... *)
+Lemma old_sel_is_core_swapped mat obj_wt vec_wt : Forall (fun x => 0 <= x) obj_wt -> Exists (fun x => 0 < x) obj_wt ->
+  old_trans_sel mat obj_wt vec_wt = trans_core mat vec_wt obj_wt.
+Proof. intros Hn Hp. rewrite trans_core_body by assumption. reflexivity. Qed.
+
+(** ... so it did not compute the distance to the preference vector *)
+Lemma old_sel_roles_refuted : exists mat sign pref,
   Forall (fun s => s == 1 \/ s == -(1)) sign /\ Forall (fun x => 0 <= x) pref /\ Exists (fun x => 0 < x) pref /\
-  ~ tres_eq (trans_sel_prob mat sign pref) (trans_core mat sign pref) /\
-  ~ tres_eq (trans_sel_fn mat sign pref) (trans_core mat sign pref).
+  ~ tres_eq (old_trans_sel mat sign pref) (trans_core mat sign pref) /\
+  tres_eq (trans_sel_prob mat sign pref) (trans_core mat sign pref) /\
+  tres_eq (trans_sel_fn mat sign pref) (trans_core mat sign pref).
 Proof.
   exists [[0; 1]; [1; 0]], [1; 1], [1; 0]. split; [repeat constructor; left; reflexivity|]. split; [repeat constructor; lra|].
-  split; [constructor; lra|]. split; vm_compute; intro H; inversion H as [|? ? ? ? E _]; discriminate E.
+  split; [constructor; lra|]. split; [vm_compute; intro H; inversion H as [|? ? ? ? E _]; discriminate E|].
+  split; vm_compute; repeat constructor.
 Qed.
-
-Lemma sel_roles_partial mat w : Forall (fun x => 0 <= x) w -> Exists (fun x => 0 < x) w ->
-  trans_sel_prob mat w w = trans_core mat w w /\ trans_sel_fn mat w w = trans_core mat w w.
-Proof. intros Hn Hp. now apply sel_is_core_swapped. Qed.
 
 (** * translation invariance *)
 Notation veq := (Forall2 Qeq).
